@@ -125,7 +125,13 @@ def impl_rows(world: E.World, root_obj):
                     r["df"] = hs(get_traverser(from_left=True, depth_first=True, from_top=True)(n))
                     r["post"] = hs(get_traverser(from_left=True, depth_first=True, from_top=False)(n))
                 # filters: the filtered iterator is the restriction of the unfiltered one
-                for name, f in (("t", is_tag_node), ("x", is_text_node), ("c", is_comment_node), ("p", is_processing_instruction_node)):
+                # type filters and filters that tell nodes of one kind apart (by name, by being a root, by identity): a
+                # nearer node may fail where a farther one passes (seeded C05-8: the ancestor walk stopping at the first
+                # ancestor that fails the filter)
+                for name, f in (("t", is_tag_node), ("x", is_text_node), ("c", is_comment_node), ("p", is_processing_instruction_node),
+                                ("name", lambda o: getattr(o, "local_name", "") in ("r", "a", "x")),
+                                ("root", lambda o: o.parent is None),
+                                ("even", lambda o: (world.handle.get(id(o)) or 0) % 2 == 0)):
                     for rel, unf in (("children", n.iterate_children), ("descendants", n.iterate_descendants),
                                      ("following", n.iterate_following), ("preceding", n.iterate_preceding),
                                      ("next_sibs", n.iterate_following_siblings), ("prev_sibs", n.iterate_preceding_siblings),
